@@ -335,7 +335,7 @@ func (l *MapLoop) Analyze(cfg *OrderConfig) {
 				// returns in blocks dominated by the body entry
 				dep := false
 				for _, r := range x.Results {
-					if variant(RetValOf(x, r)) {
+					if variantDeep(RetValOf(x, r), variant, 0) {
 						dep = true
 					}
 				}
@@ -686,7 +686,37 @@ func (l *MapLoop) sortedBeforeUse(call *ssa.Call, cfg *OrderConfig) bool {
 	}
 	// any non-benign use of a web value outside the loop that is reachable from the loop without passing a sort?
 	exitStarts := l.exitBlocks()
+	// a cell that outlives the function (a field of the receiver or of a parameter, a global, a
+	// place reached through a pointer): storing the accumulator there publishes it, so returning
+	// without having sorted it is a use
+	escapes := false
+	for _, cell := range cells {
+		root := cell
+		for i := 0; i < 12; i++ {
+			switch x := root.(type) {
+			case *ssa.FieldAddr:
+				root = x.X
+				continue
+			case *ssa.IndexAddr:
+				root = x.X
+				continue
+			case *ssa.UnOp:
+				root = x.X
+				continue
+			}
+			break
+		}
+		if al, ok := root.(*ssa.Alloc); ok && spilledParam(al) == nil {
+			if _, isPtr := al.Type().Underlying().(*types.Pointer).Elem().Underlying().(*types.Pointer); !isPtr {
+				continue
+			}
+		}
+		escapes = true
+	}
 	uses := func(in ssa.Instruction) bool {
+		if _, isRet := in.(*ssa.Return); isRet && escapes {
+			return true
+		}
 		if isSortOfWeb(in) || benign(in) {
 			return false
 		}
@@ -762,3 +792,45 @@ func findFromBlock(b *ssa.BasicBlock, target, barrier func(ssa.Instruction) bool
 }
 
 var _ = strings.TrimSpace
+
+// variantDeep: v varies per iteration, or v is a freshly allocated object one of whose fields was
+// stored with a value that does (an error value carrying the current element's location).
+func variantDeep(v ssa.Value, variant func(ssa.Value) bool, d int) bool {
+	if v == nil || d > 4 {
+		return false
+	}
+	if variant(v) {
+		return true
+	}
+	base := v
+	for i := 0; i < 4; i++ {
+		switch x := base.(type) {
+		case *ssa.MakeInterface:
+			base = x.X
+			continue
+		case *ssa.ChangeInterface:
+			base = x.X
+			continue
+		case *ssa.ChangeType:
+			base = x.X
+			continue
+		}
+		break
+	}
+	al, ok := base.(*ssa.Alloc)
+	if !ok {
+		return false
+	}
+	for _, r := range Referrers(al) {
+		fa, ok := r.(*ssa.FieldAddr)
+		if !ok {
+			continue
+		}
+		for _, r2 := range Referrers(fa) {
+			if st, ok := r2.(*ssa.Store); ok && st.Addr == ssa.Value(fa) && variantDeep(st.Val, variant, d+1) {
+				return true
+			}
+		}
+	}
+	return false
+}
